@@ -9,7 +9,7 @@ checks = {
  "C02": ("exploration", "lock-step twin simulation MemoryFS vs PhysicalFS(tmpfs) with pairwise outcome and snapshot comparison", "7/C02",
          "The same generated history (incl. wrong-type calls, reader seek/read scripts, boundary-size and non-UTF-8 payloads) runs on an empty MemoryFS and an empty PhysicalFS; success/failure, named error classes where demanded, returned data and full snapshots must agree after every step."),
  "C03": ("exploration", "seeded search over unrestricted histories with a model-free tree invariant evaluated on full snapshots after every step", "7/C03",
-         "Unrestricted call domain (file calls on directories, directory calls on files, wrong-typed transfers) on all stacks incl. pre-populated overlays; after every step root is a directory, every existing path has an existing directory parent and is reached by walk_dir(root). Pre-populated overlays include directories of a higher layer over same-named files of a deeper layer; a quarter of the overlay histories start with wrong-typed removals of pre-populated non-empty directories."),
+         "Unrestricted call domain (file calls on directories, directory calls on files, wrong-typed transfers) on all stacks incl. pre-populated overlays; after every step root is a directory, every existing path has an existing directory parent and is reached by walk_dir(root). Pre-populated overlays include directories of a higher layer over same-named files of a deeper layer; a quarter of the overlay histories start with wrong-typed removals of pre-populated non-empty directories. 12% of the runs have a second filesystem and end with a transfer of a populated directory across the two; a quarter of the runs fail one underlying call (a third of those only count calls on open handles, i.e. a read or write in the middle of a transfer): failed calls must not leave an orphan either."),
  "C04": ("exploration", "seeded write/seek/flush scripts with short-read/short-write/EINTR perturbation, Cursor-based byte oracle", "7/C04",
          "Write sessions (create/append, seeks, flushes, handles kept open across steps with flush visibility), copy/move/copy-up on all stacks with boundary-length, >64KiB, ~200KiB and non-UTF-8 payloads; fresh readers with buffer sizes 1..65536; legal I/O perturbations injected between layers must not change any byte."),
  "C05": ("exploration", "seeded search over unrestricted histories with a model-free cross-observer consistency invariant (incl. walk order)", "7/C05",
